@@ -300,6 +300,16 @@ def run_expr(mn, tier):
                             org = (value & 0xFF0000) | 0x8000
                             src = f"*=0x{org:06x}\n{mn}{suffix} {isa.render_operand(shape, hexlit(value, False))}"
                             at = _refbus.lorom().phys(org)
+                            if suffix:
+                                # and the .l form with an operand of 16 bits, assembled in bank 02: the bank byte is the operand's (00)
+                                small = value & 0xFFFF
+                                src2 = f"*=0x028000\n{mn}.l {isa.render_operand(shape, hexlit(small, False))}"
+                                out2 = impl.assemble(src2, rom="low_rom")
+                                n += 1
+                                exp2 = isa.encode(isa.lookup(mn, shape, 3), small, 3)
+                                if not out2.accepted or out2.blocks != [(_refbus.lorom().phys(0x028000), exp2)]:
+                                    viol.append({"key": f"isa:wrong-bytes:{mn} {sid} w3 form=long-form-of-a-16-bit-operand-in-another-bank",
+                                                 "msg": f"`{src2.replace(chr(10), ' / ')}` must encode as {exp2.hex()} but gave {out2.brief()}"})
                         out = impl.assemble(src, rom="low_rom")
                         n += 1
                         nt += 1
